@@ -487,7 +487,7 @@ int main(int argc, char **argv) {
             plan.stages.push_back(srch.stage());
         };
         add(s_u8_16, "BigInt<uint8,16>", u8depth, 64); // -1: to the fixed point
-        add(s_u8_24, "BigInt<uint8,24>", d1 + 1, 32);
+        add(s_u8_24, "BigInt<uint8,24>", th ? d1 : d1 + 1, 32); // depth 5 in both tiers (depth 6 runs into the state cap)
         add(s_u8_32, "BigInt<uint8,32>", d1, 32);
         add(s_u16_64, "BigInt<uint16,64>", d1, 32);
         add(s_u32_128, "BigInt<uint32,128>", d1, 32);
